@@ -27,6 +27,7 @@ type c05Real struct {
 	fail     int  // the first n claim payments fail ...
 	mine     int  // ... and this many blocks arrive before the next attempt
 	restart  bool // the taker is restarted after the announcement, before the confirmation is reported
+	infoFail bool // lnd: the height lookup that follows the confirmation event fails once
 }
 
 func runC05Real(r *Run, seed int64, c c05Real) {
@@ -45,6 +46,24 @@ func runC05Real(r *Run, seed int64, c c05Real) {
 		return
 	}
 	chain := w.BTC
+	var confSeen, infoFailed atomic.Bool
+	armInfoFail := func() {
+		if !c.infoFail || rn.lndChain == nil {
+			return
+		}
+		rn.lndChain.Hook = func(call string) error {
+			switch call {
+			case "confevent":
+				confSeen.Store(true)
+			case "getinfo":
+				if confSeen.Load() && infoFailed.CompareAndSwap(false, true) {
+					return fmt.Errorf("injected: lnd GetInfo unavailable")
+				}
+			}
+			return nil
+		}
+	}
+	armInfoFail()
 	var mu sync.Mutex
 	var attempts []sim.EvPay
 	var told []uint32
@@ -140,6 +159,7 @@ func runC05Real(r *Run, seed int64, c c05Real) {
 			r.Inconclusive("restart: " + err.Error())
 			return
 		}
+		armInfoFail()
 		w.Run()
 	}
 	// no verdict from elapsed time: wait while the swap sits in the confirmation wait and the world is doing something
@@ -235,6 +255,11 @@ func c05RealCases(r *Run) []c05Real {
 		cases = append(cases, c05Real{watcher: wt, held: 500, annDelay: 0, cltv: 504, fail: 1, mine: 300})
 		cases = append(cases, c05Real{watcher: wt, held: 500, annDelay: 100, cltv: 504, restart: true})
 		cases = append(cases, c05Real{watcher: wt, held: 1, annDelay: 100, cltv: 144, fail: 1, mine: 100})
+	}
+	for _, held := range []int{3, 500, 600, 900} {
+		for _, ann := range []int{0, 2, 100} {
+			cases = append(cases, c05Real{watcher: "lnd", held: held, annDelay: ann, cltv: 144, infoFail: true})
+		}
 	}
 	rng := mrand.New(mrand.NewSource(r.Seed + 505))
 	for i := 0; i < r.N(16, 600); i++ {
